@@ -20,6 +20,9 @@ package container
 //@ ghost field (SingletonComponentRegistry) IC map[string]bool
 //@ ghost field (SingletonComponentRegistry) EarlyRuns map[string]int
 //@ ghost field (SingletonComponentRegistry) Creates map[string]int
+//   Hole: the one name (if HasHole) that is marked in creation but whose early-reference factory is not registered yet
+//@ ghost field (SingletonComponentRegistry) HasHole bool
+//@ ghost field (SingletonComponentRegistry) Hole string
 
 // Ghost attributes of a factory callback: which protocol role it plays, for which name, on which registry.
 //@ ghost field (SingletonFactory) Role int
@@ -29,9 +32,15 @@ package container
 //@ spec func RoleCreator() int = 1
 //@ spec func RoleEarlyRef() int = 2
 
-// J3: a name in creation is not published.  JF: every pending factory is a well-formed early-reference factory
-// for its own name on this registry.
-//@ spec func RegInv(r SingletonComponentRegistry) bool = r != nil && r.RepInv && forall(n, string, implies(r.IC[n], !r.L1Dom[n]), r.IC[n]) && forall(n, string, implies(r.L3Dom[n], r.L3[n] != nil && r.L3[n].Role == RoleEarlyRef() && r.L3[n].ForName == n && r.L3[n].Reg == r), r.L3Dom[n])
+// Registry invariant (all quantifiers over names n):
+//   J3  a name in creation is not published;          JV  cached values are non-nil;
+//   JF  every pending factory is a well-formed early-reference factory for its own name on this registry;
+//   J   every name in creation can be answered (early reference or pending factory) except the hole;
+//   J2  early references and pending factories exist only for names in creation.
+//@ spec func RegCore(r SingletonComponentRegistry) bool = r != nil && r.RepInv && forall(n, string, implies(r.IC[n], !r.L1Dom[n]), r.IC[n]) && forall(n, string, implies(r.L1Dom[n], r.L1[n] != nil), r.L1Dom[n]) && forall(n, string, implies(r.L2Dom[n], r.L2[n] != nil), r.L2Dom[n]) && forall(n, string, implies(r.L3Dom[n], r.L3[n] != nil && r.L3[n].Role == RoleEarlyRef() && r.L3[n].ForName == n && r.L3[n].Reg == r), r.L3Dom[n]) && forall(n, string, implies(r.IC[n], r.L2Dom[n] || r.L3Dom[n] || (r.HasHole && n == r.Hole)), r.IC[n])
+//@ spec func RegInv(r SingletonComponentRegistry) bool = RegCore(r) && forall(n, string, implies(r.L2Dom[n] || r.L3Dom[n], r.IC[n]), r.L2Dom[n], r.L3Dom[n])
+// RegInvBut(r, x): the invariant while the owner of x has unmarked x but not yet published it (J2 is suspended for x)
+//@ spec func RegInvBut(r SingletonComponentRegistry, x string) bool = RegCore(r) && forall(n, string, implies(n != x && (r.L2Dom[n] || r.L3Dom[n]), r.IC[n]), r.L2Dom[n], r.L3Dom[n])
 
 // Two-state rely: what every registry operation and every creating callback guarantees to the frames above it.
 // R1 published entries are immutable; R4 a name that was in creation stays in creation and unpublished, its early
@@ -47,19 +56,22 @@ package container
 //@ method (SingletonFactory).GetComponent
 //@ property C04
 //@ requires [cb-inv] RegInv(self.Reg)
-//@ requires [factory-sees-mark] implies(self.Role == RoleCreator(), self.Reg.IC[self.ForName])
-//@ assigns self.Reg.L1Dom, self.Reg.L1, self.Reg.L2Dom, self.Reg.L2, self.Reg.L3Dom, self.Reg.L3, self.Reg.IC, self.Reg.EarlyRuns, self.Reg.Creates
+//@ requires [factory-sees-mark] implies(self.Role == RoleCreator(), self.Reg.IC[self.ForName] && self.Reg.HasHole && self.Reg.Hole == self.ForName)
+//@ requires [early-ref-no-hole] implies(self.Role == RoleEarlyRef(), !self.Reg.HasHole)
+//@ assigns self.Reg.L1Dom, self.Reg.L1, self.Reg.L2Dom, self.Reg.L2, self.Reg.L3Dom, self.Reg.L3, self.Reg.IC, self.Reg.EarlyRuns, self.Reg.Creates, self.Reg.HasHole, self.Reg.Hole
 //@ ensures [cb-inv-kept] RegInv(self.Reg)
 //@ ensures [cb-rely] RegRely(self.Reg)
 //@ ensures [cb-result] implies(result1 == nil, result0 != nil)
 //@ ensures [cb-earlyref-frame] implies(self.Role == RoleEarlyRef(), CachesUnchanged(self.Reg) && self.Reg.Creates == old(self.Reg.Creates) && self.Reg.EarlyRuns == store(old(self.Reg.EarlyRuns), self.ForName, old(self.Reg.EarlyRuns[self.ForName]) + 1))
 //@ ensures [cb-creator-counts] implies(self.Role == RoleCreator(), self.Reg.Creates[self.ForName] == old(self.Reg.Creates[self.ForName]) + 1)
 //@ ensures [cb-creator-marks] implies(self.Role == RoleCreator(), self.Reg.IC == old(self.Reg.IC))
+//@ ensures [cb-hole] implies(self.Reg.HasHole, self.Role == RoleCreator() && self.Reg.Hole == self.ForName) && implies(self.Role == RoleEarlyRef(), self.Reg.HasHole == old(self.Reg.HasHole) && self.Reg.Hole == old(self.Reg.Hole))
 
 //@ method (SingletonComponentRegistry).GetSingleton
 //@ property C04
 //@ requires [inv] RegInv(self)
-//@ assigns self.L1Dom, self.L1, self.L2Dom, self.L2, self.L3Dom, self.L3, self.IC, self.EarlyRuns, self.Creates
+//@ requires [no-hole] !self.HasHole || !allowEarlyReference
+//@ assigns self.L1Dom, self.L1, self.L2Dom, self.L2, self.L3Dom, self.L3, self.IC, self.EarlyRuns, self.Creates, self.HasHole, self.Hole
 //@ ensures [inv-kept] RegInv(self)
 //@ ensures [rely] RegRely(self)
 //@ ensures [published-wins] implies(old(self.L1Dom[name]), result0 == old(self.L1[name]) && result1 == nil)
@@ -68,29 +80,32 @@ package container
 //@ ensures [no-run-otherwise] implies(old(self.L1Dom[name]) || old(self.L2Dom[name]) || !allowEarlyReference || !old(self.L3Dom[name]), CachesUnchanged(self) && self.EarlyRuns == old(self.EarlyRuns))
 //@ ensures [disallowed-means-nil] implies(!allowEarlyReference && !old(self.L1Dom[name]) && !old(self.L2Dom[name]), result0 == nil && result1 == nil)
 //@ ensures [miss-means-nil] implies(!old(self.L1Dom[name]) && !old(self.L2Dom[name]) && !old(self.L3Dom[name]), result0 == nil && result1 == nil)
-//@ ensures [never-creates] self.Creates == old(self.Creates) && self.L1Dom == old(self.L1Dom) && self.L1 == old(self.L1) && self.IC == old(self.IC) && self.L3 == old(self.L3)
+//@ ensures [never-creates] self.Creates == old(self.Creates) && self.L1Dom == old(self.L1Dom) && self.L1 == old(self.L1) && self.IC == old(self.IC) && self.L3 == old(self.L3) && self.HasHole == old(self.HasHole) && self.Hole == old(self.Hole)
 //@ ensures [failed-early-ref] implies(result1 != nil, result0 == nil && CachesUnchanged(self))
 
 //@ method (SingletonComponentRegistry).GetSingletonOrCreateByFactory
 //@ property C04
 //@ requires [inv] RegInv(self)
 //@ requires [not-creating] !self.IC[name]
+//@ requires [no-hole] !self.HasHole
 //@ requires [creator] factory != nil && factory.Role == RoleCreator() && factory.ForName == name && factory.Reg == self
-//@ assigns self.L1Dom, self.L1, self.L2Dom, self.L2, self.L3Dom, self.L3, self.IC, self.EarlyRuns, self.Creates
+//@ assigns self.L1Dom, self.L1, self.L2Dom, self.L2, self.L3Dom, self.L3, self.IC, self.EarlyRuns, self.Creates, self.HasHole, self.Hole
 //@ ensures [inv-kept] RegInv(self)
 //@ ensures [rely] RegRely(self)
 //@ ensures [already-published] implies(old(self.L1Dom[name]), result0 == old(self.L1[name]) && result1 == nil && CachesUnchanged(self) && self.Creates == old(self.Creates) && self.EarlyRuns == old(self.EarlyRuns))
 //@ ensures [publishes] implies(result1 == nil && !old(self.L1Dom[name]), result0 != nil && self.L1Dom[name] && self.L1[name] == result0 && !self.L2Dom[name] && !self.L3Dom[name])
 //@ ensures [ic-restored] self.IC == old(self.IC)
+//@ ensures [no-hole-left] !self.HasHole
 //@ ensures [publishes-once] implies(!old(self.L1Dom[name]), self.Creates[name] == old(self.Creates[name]) + 1)
 //@ ensures [failed-create-leaves-nothing] implies(result1 != nil && !old(self.L1Dom[name]), !self.IC[name] && !self.L1Dom[name] && !self.L2Dom[name] && !self.L3Dom[name])
 //@ ensures [error-means-nil] implies(result1 != nil, result0 == nil)
 
 //@ method (SingletonComponentRegistry).AddSingleton
 //@ property C04
-//@ requires [inv] RegInv(self)
+//@ requires [inv] RegInvBut(self, name)
 //@ requires [publish-after-unmark] !self.IC[name]
 //@ requires [publish-once] !self.L1Dom[name]
+//@ requires [publishes-a-component] meta != nil
 //@ assigns self.L1Dom, self.L1, self.L2Dom, self.L3Dom
 //@ ensures [inv-kept] RegInv(self)
 //@ ensures [rely] RegRely(self)
@@ -101,14 +116,17 @@ package container
 //@ requires [inv] RegInv(self)
 //@ requires [early-factory] method != nil && method.Role == RoleEarlyRef() && method.ForName == name && method.Reg == self
 //@ requires [not-answered-yet] !self.L1Dom[name] && !self.L2Dom[name]
-//@ assigns self.L3Dom, self.L3
+//@ requires [early-factory-for-marked] self.IC[name]
+//@ assigns self.L3Dom, self.L3, self.HasHole
 //@ ensures [inv-kept] RegInv(self)
 //@ ensures [rely] RegRely(self)
 //@ ensures [adds-whole-view] self.L3Dom == store(old(self.L3Dom), name, true) && self.L3 == store(old(self.L3), name, method)
+//@ ensures [fills-hole] self.HasHole == (old(self.HasHole) && self.Hole != name)
 
 //@ method (SingletonComponentRegistry).RemoveSingleton
 //@ property C04
 //@ requires [inv] RegInv(self)
+//@ requires [not-the-hole] !self.HasHole
 //@ assigns self.L1Dom, self.L2Dom, self.L3Dom, self.IC
 //@ ensures [inv-kept] RegInv(self)
 //@ ensures [removes-whole-view] self.L1Dom == store(old(self.L1Dom), name, false) && self.L2Dom == store(old(self.L2Dom), name, false) && self.L3Dom == store(old(self.L3Dom), name, false) && self.IC == store(old(self.IC), name, false)
